@@ -638,7 +638,7 @@ func targets(p *GProg) map[string]int {
 var posOrder = []string{"main", "inc", "deep"}
 
 // buildCases: all edits at all positions for the minimal base; a seeded sample for random bases.
-func buildCases(baseName string, mk func() *GProg, r *vl.Rng, exhaustive bool, perRule int) []*Case {
+func buildCases(baseName string, mk func() *GProg, r *vl.Rng, exhaustive bool, perRule int, crashOnRandom bool) []*Case {
 	var out []*Case
 	b := mk()
 	out = append(out, &Case{Base: baseName, Rule: "none", Variant: "base", Pos: "base", Prog: b, BaseProg: b, Valid: true, Recursive: true})
@@ -684,7 +684,7 @@ func buildCases(baseName string, mk func() *GProg, r *vl.Rng, exhaustive bool, p
 		for _, rule := range rules {
 			ids := byRule[rule]
 			got := 0
-			if rule == "typedef_cycle_const_ident" && (perRule < 2 || !r.Chance(25)) {
+			if rule == "typedef_cycle_const_ident" && (!crashOnRandom || !r.Chance(25)) {
 				continue // quick tier: only on the fixed program (each run has to grow a 1 GB stack)
 			}
 			for attempt := 0; attempt < 12 && got < perRule; attempt++ {
